@@ -256,4 +256,62 @@ def isRazorMethod (name : String) : Bool :=
   | some m => m.sharedPeptides = some "razor"
   | none => false
 
+/-! ## vocabulary of the property statements (Props/C10.lean) -/
+
+/-- scores of the PSMs of one stripped peptide that carry a PEP -/
+def scoresOf (q : String) (xs : List Psm) : List Rat :=
+  xs.filterMap (fun x => if x.key = q then x.score else none)
+
+/-- Percolator input (either header) -/
+def isPerc : Format → Bool
+  | .percNative => true
+  | .percMokapot => true
+  | _ => false
+
+/-- prefix test of `remove_decoy_proteins_from_target_peptides` -/
+def isDecoyId (p : String) : Bool := strStartsWith p "REV__" || strStartsWith p "rev_"
+
+/-- the decoy markers occur in the identifier only as its prefix -/
+def MarkerOnlyAsPrefix (p : String) : Prop :=
+  (strContains p "REV__" = true → strStartsWith p "REV__" = true) ∧
+  (strContains p "rev_" = true → strStartsWith p "rev_" = true)
+
+instance (p : String) : Decidable (MarkerOnlyAsPrefix p) := by unfold MarkerOnlyAsPrefix; infer_instance
+
+/-- two proteins listed by one peptide of the list -/
+def SharePeptide (pil : List PepInfo) (a b : String) : Prop :=
+  ∃ e ∈ pil, a ∈ e.proteins ∧ b ∈ e.proteins
+
+/-- keep the first occurrence of every key -/
+def dedupFirst : List String → List String
+  | [] => []
+  | k :: r => k :: (dedupFirst r).filter (fun x => x != k)
+
+/-- no modification delimiters -/
+def Plain (a : List Char) : Prop := ∀ c ∈ a, c ≠ '(' ∧ c ≠ ')' ∧ c ≠ '[' ∧ c ≠ ']'
+
+/-- `Spells s b`: the character list `s` spells the bare peptide `b` with modification tokens:
+    residues, `( … )` tokens (body free of `)`; a nested MaxQuant token `(Oxidation (M))` is such a
+    token followed by a stray `)`), `[ … ]` tokens (body free of `]` and `(`), stray `)` -/
+inductive Spells : List Char → List Char → Prop
+  | nil : Spells [] []
+  | residue {s b : List Char} (c : Char) : (c ≠ '(' ∧ c ≠ ')' ∧ c ≠ '[' ∧ c ≠ ']') →
+      Spells s b → Spells (c :: s) (c :: b)
+  | paren {s b : List Char} (body : List Char) : (∀ x ∈ body, x ≠ ')') →
+      Spells s b → Spells ('(' :: (body ++ ')' :: s)) b
+  | bracket {s b : List Char} (body : List Char) : (∀ x ∈ body, x ≠ ']' ∧ x ≠ '(') →
+      Spells s b → Spells ('[' :: (body ++ ']' :: s)) b
+  | close {s b : List Char} : Spells s b → Spells (')' :: s) b
+
+/-- the same files in the same order, each with its rows permuted -/
+inductive RowsShuffled : List (DMap × List RawRow) → List (DMap × List RawRow) → Prop
+  | nil : RowsShuffled [] []
+  | cons {a b : DMap × List RawRow} {l l' : List (DMap × List RawRow)} :
+      a.1 = b.1 → a.2.Perm b.2 → RowsShuffled l l' → RowsShuffled (a :: l) (b :: l')
+
+/-- files `pairs'` arise from `pairs` by reordering the files (each keeping its digest map) and
+    reordering the rows inside every file -/
+def Shuffled (pairs pairs' : List (DMap × List RawRow)) : Prop :=
+  ∃ mid, pairs.Perm mid ∧ RowsShuffled mid pairs'
+
 end PgFdr.C10
